@@ -146,8 +146,12 @@ class D(object):
         for a in self.arrays:
             s += "[%s]" % a
         if with_attrs:
-            for k, v in self.attrs:
-                s += " +%s" % k if v is True else " +%s(%s)" % (k, v)
+            for at in self.attrs:
+                k, v = at[0], at[1]
+                if len(at) > 2:
+                    s += " +%s=%s" % (k, v)  # the documented  +attr=value  spelling
+                else:
+                    s += " +%s" % k if v is True else " +%s(%s)" % (k, v)
         if with_init and self.init is not None:
             s += " = %s" % self.init
         return s
@@ -261,6 +265,11 @@ ATTRS = [
 ]
 
 
+# the  +attr=value  spelling (input.rst: "+attr=value" is the same as "+attr(value)"); numerals arrive as integers
+ATTRS_EQ = [("rank", "1", "="), ("rank", "2", "="), ("rank", "0", "="), ("len", "30", "="), ("len", "1", "="),
+            ("dimension", "n", "="), ("owner", "caller", "="), ("name", "other", "="), ("intent", "in", "=")]
+
+
 def with_attrs_and_defaults(level):
     """Declarations carrying attributes (one or two) and default values."""
     base = [
@@ -270,7 +279,7 @@ def with_attrs_and_defaults(level):
         D(("std::vector<int>",), "std::vector", ptrs=[("&", False, False)], name="a"),
     ]
     for b in base:
-        for at in ATTRS:
+        for at in ATTRS + ATTRS_EQ:
             yield D(b.spec, b.tname, b.must, b.cpre, b.cpost, b.vpre, b.ptrs, b.name, attrs=[at])
         if level >= 2:
             for a1, a2 in itertools.combinations(ATTRS[:8], 2):
